@@ -242,7 +242,7 @@ type phasesCase struct {
 }
 
 func phasesGen(g *Gen, i int) (any, string) {
-	sets := []flatOpts{{Minimal: true}, {Minimal: true, RemoveUnused: true}, {}, {RemoveUnused: true}}
+	sets := []flatOpts{{Minimal: true}, {Minimal: true, RemoveUnused: true}, {}, {RemoveUnused: true}, {Expand: true}, {Expand: true, RemoveUnused: true}}
 	o := sets[i%len(sets)]
 	gb := NewGen(g.seed, 3<<40|uint64(i/len(sets)))
 	in := flattenCase(gb, o, false, 0, 0, false, i/len(sets))
@@ -251,7 +251,7 @@ func phasesGen(g *Gen, i int) (any, string) {
 	return in, o.String()
 }
 
-const phasesRule = "bundles of W from the bundle generator x {Minimal, full} x {RemoveUnused}; one observed Flatten per case (child process); for every modelled phase (normalizeRef, removeUnusedShared, nameInlinedSchemas, namePointers, removeUnused) whose preceding phase left the analyzer in sync: model(state before) must equal the implementation's state after (document in serialization normal form, newRefs bookkeeping); non-trivial = at least one modelled phase changed the document; distinct by canonical JSON"
+const phasesRule = "bundles of W from the bundle generator x {Minimal, full, Expand} x {RemoveUnused}; one observed Flatten per case (child process); for every modelled phase (normalizeRef, removeUnusedShared, importReferences, nameInlinedSchemas, namePointers, stripOAIGen incl. its loop flag, removeUnused) and for the whole pipeline after expand, whose preceding phase left the analyzer in sync: model(state before) must equal the implementation's state after (document in serialization normal form, newRefs bookkeeping); non-trivial = at least one modelled phase changed the document; distinct by canonical JSON"
 
 // phasesStreamRun is the stream `phases` (custom runner because of the need/answer rounds).
 func phasesStreamRun(ctx *Ctx) StreamResult {
